@@ -143,6 +143,8 @@ func gen(c *lib.Ctx) {
 		genHistWrap(c, "c03histwrap-ip", false)
 		genHistWrap(c, "c03histwrap-scion", true)
 		genHdr(c, "c03hdr")
+		genPoolOrigin(c, "c11origin-ip", false)
+		genPoolOrigin(c, "c11origin-scion", true)
 	case "c05":
 		genC05IP(c)
 		genWrapIP(c)
@@ -189,6 +191,9 @@ func gen(c *lib.Ctx) {
 	case "c11":
 		genPool(c, "c11pool-ip", false)
 		genPool(c, "c11pool-scion", true)
+	case "c11origin":
+		genPoolOrigin(c, "c11origin-ip", false)
+		genPoolOrigin(c, "c11origin-scion", true)
 	default:
 		panic("unknown -prop")
 	}
